@@ -31,7 +31,7 @@ def plain_attrs(schema, c):
     return [a['n'] for a in schema['attrs'][c] if a['n'] not in refs]
 
 
-def gen_ops(schema, c, rnd, nids, maxops=3):
+def gen_ops(schema, c, rnd, nids, maxops=3, dup=False):
     ops = []
     names = [a['n'] for a in schema['attrs'][c]]
     plain = plain_attrs(schema, c)
@@ -39,7 +39,12 @@ def gen_ops(schema, c, rnd, nids, maxops=3):
         k = rnd.random()
         if k < 0.4:
             ns = rnd.sample(names, rnd.randint(1, min(2, len(names))))
-            ops.append({'k': 'eq', 'kv': [[n, value_for(schema, c, n, rnd, nids)] for n in ns]})
+            kv = [[n, value_for(schema, c, n, rnd, nids)] for n in ns]
+            if dup and rnd.random() < 0.3:
+                # one attribute named twice (the adapter uses two spellings): both conditions address the one stored value
+                n = rnd.choice(ns)
+                kv.append([n, value_for(schema, c, n, rnd, nids) if rnd.random() < 0.7 else [v for m, v in kv if m == n][0]])
+            ops.append({'k': 'eq', 'kv': kv})
         elif k < 0.65 and plain:
             n = rnd.choice(plain)
             ops.append({'k': 'lam', 'n': n, 'cmp': rnd.choice(['eq', 'ne', 'lt', 'le', 'gt', 'ge']),
@@ -107,7 +112,7 @@ def gen_from(schema, born, rnd, nids):
     return {'k': 'sel', 'c': c, 'ops': gen_ops(schema, c, rnd, nids, 2)}
 
 
-def battery(kinds, per_step=3):
+def battery(kinds, per_step=3, dup_eq=False):
     """returns obs(schema, acts, rnd) -> list (per step) of lists of observation records"""
     def obs(schema, acts, rnd):
         out = []
@@ -120,7 +125,7 @@ def battery(kinds, per_step=3):
                 c = rnd.choice(schema['classes'])
                 if kind == 'sel':
                     qs.append({'k': 'sel', 'form': rnd.choice(['many', 'many', 'one']), 'c': c,
-                               'ops': gen_ops(schema, c, rnd, nids)})
+                               'ops': gen_ops(schema, c, rnd, nids, dup=dup_eq)})
                 elif kind == 'nav':
                     f = gen_from(schema, born, rnd, nids)
                     chain, last = gen_chain(schema, f['c'], rnd)
@@ -128,7 +133,7 @@ def battery(kinds, per_step=3):
                         continue
                     ok = all(st[1] != 'R99' for st in chain)
                     qs.append({'k': 'nav', 'form': rnd.choice(['many', 'many', 'one', 'any']), 'from': f,
-                               'chain': chain, 'ops': gen_ops(schema, last, rnd, nids, 2) if ok else []})
+                               'chain': chain, 'ops': gen_ops(schema, last, rnd, nids, 2, dup=dup_eq) if ok else []})
                 elif kind == 'card':
                     qs.append({'k': 'card', 'from': gen_from(schema, born, rnd, nids)})
                 elif kind == 'sub':
